@@ -54,6 +54,9 @@ var (
 	ppHeld             int64
 	ppArmedN           int64
 	ppCloseDuringSetup int64
+	raceArmed          int32
+	raceOverlaps       int64
+	raceParked         sync.Map // connection id -> chan struct{}: a reply parked between stream lookup and delivery
 	// the closeNext counter of the upstream that is about to close a fresh connection (set by the "ac" operation)
 	ppAcceptClosed *int32
 	ppCloseSeen    = make(chan struct{}, 64)
@@ -174,6 +177,9 @@ func c09Engine(c *lab.Ctx) {
 				atomic.StoreInt32(&ppHoldArmed, 1)
 				atomic.AddInt64(&ppArmedN, 1)
 			}
+		case "race":
+			plan = "d250:ok" // the route's timeout is 300 ms
+			atomic.StoreInt32(&raceArmed, 1)
 		case "rqover":
 			key, plan = "rq", "d60:ok" // cluster with max_requests=2: refused when 2 are in flight
 		case "oneway":
@@ -196,6 +202,12 @@ func c09Engine(c *lab.Ctx) {
 		ev := cl.do(r)
 		if ev.Kind == "open" || ev.Kind == "closed" {
 			cl.close()
+		}
+		if op == "race" {
+			atomic.StoreInt32(&raceArmed, 0)
+			amu.Lock()
+			abandoned[tok] = true // the exchange was ended by the timeout: the connection must not serve another request
+			amu.Unlock()
 		}
 		if op == "ac" {
 			atomic.StoreInt32(&ppHoldArmed, 0)
@@ -535,6 +547,14 @@ func c09Steered(c *lab.Ctx, e *engine, proto string, rng *lab.Rand, doOp func(cl
 	}
 	var ordered, unordered int64
 	verifhook.Set(destroyPoint, func(_ string, id uint64) {
+		if v, ok := raceParked.Load(id); ok && atomic.LoadInt32(&raceArmed) == 1 {
+			// a response of this connection is parked between "stream found" and its delivery: let it go now, while this goroutine (the
+			// timeout's reset) is inside the pool's destroy handler, and stay here a moment so that the two overlap
+			raceParked.Delete(id)
+			close(v.(chan struct{}))
+			atomic.AddInt64(&raceOverlaps, 1)
+			time.Sleep(30 * time.Millisecond)
+		}
 		x := ch(id)
 		mu.Lock()
 		select {
@@ -558,6 +578,22 @@ func c09Steered(c *lab.Ctx, e *engine, proto string, rng *lab.Rand, doOp func(cl
 		return x
 	}
 	if proto != "Http1" {
+		// "race" operation: the upstream's reply arrives 50 ms before the proxy's 300 ms timeout and is parked between the stream
+		// lookup and its delivery until the timeout's reset has reached the pool's destroy handler of that connection: reply and
+		// local reset of one stream overlap (a goroutine descheduled for ~50 ms at that point produces the same order)
+		verifhook.Set("xprotocol.conn.handleResponse.found", func(_ string, id uint64) {
+			if atomic.LoadInt32(&raceArmed) == 0 {
+				return
+			}
+			g := make(chan struct{})
+			raceParked.Store(id, g)
+			select {
+			case <-g:
+			case <-time.After(400 * time.Millisecond):
+				raceParked.Delete(id)
+			}
+		})
+		defer verifhook.Set("xprotocol.conn.handleResponse.found", nil)
 		// "ac" operation: the pool's set-up of a fresh connection is parked just before it is marked connected until the pool has
 		// handled the close event of THAT connection (the upstream closed it right after accepting), bounded
 		verifhook.Set("xprotocol.pingpong.setup.beforeConnected", func(_ string, id uint64) {
@@ -646,6 +682,13 @@ func c09Steered(c *lab.Ctx, e *engine, proto string, rng *lab.Rand, doOp func(cl
 			ops = append(ops, c09Ops[rng.Intn(len(c09Ops))])
 		}
 		run(ops)
+	}
+	if proto != "Http1" {
+		for rep := 0; rep < c.Pick(4, 16); rep++ {
+			run([]string{"ok", "race", "ok", "race", "ok"})
+		}
+		c.Count("steered_reply_overlapping_timeout_reset_"+proto, atomic.LoadInt64(&raceOverlaps))
+		c.Require("reply / timeout-reset overlaps produced ("+proto+")", atomic.LoadInt64(&raceOverlaps) > 0, fmt.Sprint(atomic.LoadInt64(&raceOverlaps)))
 	}
 	if proto != "Http1" {
 		c.Count("steered_setup_held_until_close_seen_"+proto, atomic.LoadInt64(&ppHeld))
